@@ -246,13 +246,13 @@ def agreement(sc, obs):
     return None
 
 
-def run_engine(ctx, binpath, scenarios, tag):
+def run_engine(ctx, binpath, scenarios, tag, test="TestVerifC08Engine"):
     fin = os.path.join(ctx.workdir, tag + ".in")
     fout = os.path.join(ctx.workdir, tag + ".out")
     with open(fin, "w") as f:
         for s in scenarios:
             f.write(json.dumps(s) + "\n")
-    rc, log = ctx.run_bin(binpath, ["-test.run", "TestVerifC08Engine"], env={"VERIF_IN": fin, "VERIF_OUT": fout})
+    rc, log = ctx.run_bin(binpath, ["-test.run", test], env={"VERIF_IN": fin, "VERIF_OUT": fout})
     if rc != 0:
         raise RuntimeError("C08 engine failed:\n" + log[-3000:])
     obs = [json.loads(l)["obs"] for l in open(fout)]
@@ -300,6 +300,29 @@ def model_obs_at(ctx, case, i):
     if rc != 0 or not m:
         return None
     return [int(x.replace("(", "").replace(")", "")) for x in m.group(1).split(";") if x.strip()]
+
+
+def chain_case(sc, obs):
+    """Coq case for the chain-side tie: size 20000 (nothing is ever confirmed, so the model's LIB
+    is the scripted one), ops OpL / OpC with the hash of the real chain service's observation."""
+    blocks = {0: (0, -1, 0)}
+    terms = []
+    j = 0
+    for op in sc["ops"]:
+        if op[0] == "B":
+            blocks[op[1]] = (op[1], op[2], blocks[op[2]][2] + 1)
+        elif op[0] == "L":
+            terms.append("OpL %s" % Z(op[1]))
+        elif op[0] == "D":
+            o = obs[j]
+            j += 1
+            b = blocks[op[1]]
+            flat = list(o["calls"] or []) + [o["best"], len(o["main"] or [])] + list(o["main"] or [])
+            h = 5381
+            for x in flat:
+                h = ((h << 5) + h + x + 7) & HASH_MASK
+            terms.append("OpC (mkBlk %s %s %s (-1) 0) %s" % (Z(b[0]), Z(b[1]), Z(b[2]), Z(h)))
+    return "((20000,(-1)),[%s])" % ";\n".join(terms)
 
 
 def load_corpus():
@@ -368,6 +391,38 @@ def run(ctx):
             shapes.add((sc["n"], o["op"], o["res"], len(s["prpsd"] or []), len(s["confirms"] or []), min(s["lib_no"], 40)))
     T['predicates'] = round(time.time() - t0, 1)
     t0 = time.time()
+    # ---- chain-side tie: real ChainService.addBlock/reorg with a recording consensus stub
+    rc, log, chainbin = ctx.go_test_binary(
+        "chain", [os.path.join(vf.HARNESS, "engines/dposlib/zz_verif_c08_chain_engine_test.go")], "chain_c08.test")
+    if rc != 0:
+        raise RuntimeError("C08 chain engine build failed:\n" + log[-3000:])
+    cscen = G.generate_chain(rng, quick)
+    cobs = run_engine(ctx, chainbin, cscen, "c08chain", test="TestVerifC08ChainEngine")
+    chain_pred = []
+    for sc, ob in zip(cscen, cobs):
+        cases.append(chain_case(sc, ob))
+        case_src.append((sc, 0, [(k, {"res": "chain", "op": "C", "state": None, "chain_obs": o})
+                                 for k, o in zip([k for k, op in enumerate(sc["ops"]) if op[0] == "D"], ob)]))
+        # direct predicates on the real chain service: never a reorg after a refused NeedReorganization,
+        # main chain at heights <= scripted LIB never changes
+        lib, prev_main = 0, [0]
+        j = 0
+        for op in sc["ops"]:
+            if op[0] == "L":
+                lib = op[1]
+            elif op[0] == "D":
+                o = ob[j]
+                j += 1
+                m = o["main"]
+                for h in range(0, min(lib, len(prev_main) - 1) + 1):
+                    if h >= len(m) or m[h] != prev_main[h]:
+                        chain_pred.append(("C08:chain-finalized-block-replaced",
+                                           "real ChainService replaced the block at height %d <= LIB %d" % (h, lib),
+                                           {"scenario": sc, "detail": {"before": prev_main, "after": m}}))
+                        break
+                prev_main = m
+    pred_fail += chain_pred
+    stats["chain_service_deliveries"] = sum(len(o) for o in cobs)
     bad, out = model_eval(ctx, "c08_cases", cases)
     T['model_eval'] = round(time.time() - t0, 1)
     ctx.cov['timing_s'] = T
@@ -378,7 +433,13 @@ def run(ctx):
         det = []
         for ci in sorted(bad, key=lambda c: len(case_src[c][0]["ops"]))[:2]:
             sc, nd, src = case_src[ci]
-            k, o = src[bad[ci]]
+            k, o = src[min(bad[ci], len(src) - 1)] if sc.get("chain") is None else (None, None)
+            if sc.get("chain"):
+                det.append({"scenario": sc, "first_differing_op(count of L and D ops)": bad[ci],
+                            "model_obs": model_obs_at(ctx, cases[ci], bad[ci]),
+                            "obs_layout": "consensus calls (1 no = VerifyTimestamp, 2 root = NeedReorganization, 3 id = Update, "
+                                          "4 = Save), best id, |main|, ids*", "implementation_obs": [x[1]["chain_obs"] for x in src]})
+                continue
             code = RES.get(o["res"], CODE_G if o["op"] == "G" else CODE_R)
             det.append({"scenario": sc, "node": nd, "op_index": k, "implementation_obs": flat_obs(code, o),
                         "model_obs": model_obs_at(ctx, cases[ci], bad[ci]),
